@@ -27,6 +27,9 @@ def derive(case, odds=10, sizes=None, wide=True, tier="quick"):
     still a pure function of the generated case, and stored in the case so that a replay file says what was run."""
     h = int.from_bytes(hashlib.blake2b(repr(case).encode("utf-8", "backslashreplace"), digest_size=8).digest(), "big")
     if h % odds != 0:
+        # (width alone is cheap: one case in six of the rest gets the extra fields without any extra rows)
+        if wide and (h >> 24) % 6 == 0:
+            return {"rows": 0, "mode": "cycle", "wide": (33, 70, 130)[(h >> 32) % 3]}
         return None
     h //= odds
     sizes = list(sizes or SIZES)
@@ -42,7 +45,9 @@ def apply(tbl, b):
         return tbl
     hdr, rows = list(tbl[0]), [list(r) for r in tbl[1:]]
     n = b["rows"]
-    if b.get("mode") == "uniform-first":
+    if not n:
+        out = rows
+    elif b.get("mode") == "uniform-first":
         full = next((r for r in rows if len(r) == len(hdr)), rows[0])
         out = [list(full) for _ in range(n)] + rows
     else:
@@ -56,8 +61,10 @@ def apply(tbl, b):
 
 
 def label(ctx, b):
-    if b:
-        ctx.label("at-scale", "scale-mode:" + b.get("mode", "cycle"), "wide" if b.get("wide") else "narrow")
+    if b and b.get("rows"):
+        ctx.label("at-scale", "scale-mode:" + b.get("mode", "cycle"))
+    if b and b.get("wide"):
+        ctx.label("wide")
 
 
 def first_difference(got, exp, eq):
